@@ -1292,11 +1292,13 @@ func runBehaviour(steps []bStep, auth string, maxqos int, res *Result) (result *
 				}
 			}
 			equal := groupsEqual(exp, g)
-			if !equal && name == a.C && (a.A == "publish" || a.A == "pubrel") {
+			if !equal && name == a.C && (a.A == "publish" || a.A == "pubrel" || a.A == "subscribe") {
 				// a publisher subscribed to its own topic: no property says where the acknowledgement of its packet stands
 				// among the deliveries the same packet causes on its own connection (the specification lists the
 				// acknowledgement first for PUBACK, last for PUBCOMP): both are compared as streams of their own
-				isAck := func(p bPkt) bool { return p.Ty == "PUBACK" || p.Ty == "PUBCOMP" }
+				// (the same for a SUBACK and the retained messages its request brings: 3.8.4 lets the server start sending
+				// them before the SUBACK, and no property orders them)
+				isAck := func(p bPkt) bool { return p.Ty == "PUBACK" || p.Ty == "PUBCOMP" || p.Ty == "SUBACK" }
 				var expA, expD [][]bPkt
 				var gotA, gotD []bPkt
 				for _, grp := range exp {
